@@ -260,7 +260,7 @@ def check_property(rep, root, df, o, meta, outside_before):
                           'tempdir_format with directories above the per-partition leaf '
                           f'(tmp/{{uuid}}/t{{partition}}): the empty parent directories {extra} created '
                           'by makedirs are left behind',
-                          {**meta, 'left': extra})
+                          {**meta, 'left': [re.sub(r'^tmp/[^/]+', 'tmp/<uuid>', e) for e in extra]})
         else:
             rep.violation('outside:temp-left', f'temporary entries left outside the dataset: {extra}',
                           {**meta, 'left': extra})
@@ -292,7 +292,7 @@ def check_property(rep, root, df, o, meta, outside_before):
                     if pj:
                         prev = pj[-1]
             if label == 'reread':
-                pb = fr.partition_bounds if hasattr(fr, 'partition_bounds') else None
+                pb = getattr(fr, '_partition_bounds', None)
                 if pb is None or set(pb) != {'geometry', 'g2'} or any(len(v) != m for v in pb.values()):
                     rep.violation('partition-bounds', 'stored partition bounds missing or of the wrong length',
                                   {**meta})
